@@ -468,6 +468,8 @@ class ScaledInteger(HasUnit, DataType):
     def import_value(self, value):
         """returns a python object from serialisation"""
         try:
+            if isinstance(value, (str, bytes)) or int(value) != value:
+                raise ValueError('not an integer')  # do not accept strings or truncate fractions
             return self.scale * int(value)
         except Exception:
             raise WrongTypeError(f'can not import {shortrepr(value)} to scaled') from None
